@@ -76,6 +76,14 @@ def fam_classes_v2(q):
         lambda s, g: len(s["linear"]) + len(s["indexed"]), None
 
 
+def fam_classmap_bytes(q):
+    """q pairs of 200-glyph classes: the class map crosses 65535 bytes (16-bit class offsets below Silf 4.0) near q = 54."""
+    cls = "".join("kI%d = glyphid(%d..%d); kO%d = glyphid(%d..%d);\n" % (i, 12 + i % 7, 211 + i % 7, i, 13 + i % 5, 212 + i % 5) for i in range(q))
+    rules = "".join("kI%d > kO%d / glyphid(%d) _;\n" % (i, i, 2 + i % 9) for i in range(q))
+    return HDR + "table(glyph) " + cls + "cA = glyphid(3..6); cB = glyphid(7..10); endtable;\ntable(sub) pass(1)\n" + rules + "endpass; endtable;\n", ["-p"], \
+        lambda s, g: len(s["indexed"]), q
+
+
 FAMILIES = [
     ("passes", fam_passes, [127, 128, 129, 300], 200),
     ("rule_slots", fam_slots, [63, 64, 65, 200], 120),
@@ -87,6 +95,7 @@ FAMILIES = [
     ("constraint_code_length", fam_constraint, [30, 36, 37, 60, 400], 120),
     ("action_block_size", fam_actions, [1500, 2100, 2200, 3000], 200),
     ("replacement_classes_v2", fam_classes_v2, [100, 127, 128, 129, 300], 200),
+    ("class_map_bytes", fam_classmap_bytes, [40, 54, 55, 70, 100], 230),
 ]
 
 
@@ -105,7 +114,7 @@ def run(tier, seed, replay=None):
             fontb, _g, _c = ttf.simple_font(nglyphs)
         else:
             fontb = font
-        for q in qs if tier == "thorough" else qs[:4]:
+        for q in qs if (tier == "thorough" or fname == "class_map_bytes") else qs[:4]:
             gdl, opts, reader, true_value = fam(q)
             d = os.path.join(work, "%s_%d" % (fname, q))
             os.makedirs(d)
@@ -177,7 +186,7 @@ def run(tier, seed, replay=None):
     rep.coverage.update({
         "programs": stats["cases"], "traces_validated_against_impl": stats["cases"], "disagreements_checked": len(rep.violations),
         "evaluations": stats["cases"], "distinct_nontrivial": len(distinct), "outcomes": table,
-        "rule": "10 size-parameterised families x 4-5 sizes around each limit; distinct = distinct (family, size, outcome)",
+        "rule": "11 size-parameterised families x 4-5 sizes around each limit; distinct = distinct (family, size, outcome)",
         "samples": samples, "exhaustive": False,
     })
     rep.assumptions += ["field widths are my reading of GTF; limits are re-extracted from constants.h",
